@@ -55,7 +55,9 @@ def check_cover(run, tab, ex, jnp, rng, tier):
     for p, cls in classes.items():
         # (dt, number of contour nodes): the coefficient functions do not depend on how many nodes the contour mean uses (even or odd)
         # the contour radius and the dtype in which a real symbol is handed over do not enter either
-        for dt, ncp in ((1.0, None), (0.01, None), (37.0, None), (1.0, 17), (0.3, 32), (1.0, 33), (1.0, "radius2"), (0.5, "realdtype")):
+        # dt = 1, 2, 1/4 with L = z / dt: bit-identical products L dt for different dt in one process (the coefficients are dt times a function
+        # of L dt: an integrator that remembers anything per L dt must not remember the factor dt)
+        for dt, ncp in ((1.0, None), (2.0, None), (0.25, None), (0.01, None), (37.0, None), (1.0, 17), (0.3, 32), (1.0, 33), (1.0, "radius2"), (0.5, "realdtype")):
             for zero_u in (True, False):
                 L = zs / dt
                 if ncp == "realdtype":
